@@ -287,6 +287,56 @@ pub fn run() -> i32 {
         }
     });
     ctx.absorb("key-objects", st);
+    // password-hash objects over every accepted salt length x hash lengths around the
+    // variable-length-hash boundaries, and every preset / builder-made Config on its own
+    {
+        let sls: Vec<usize> = (8..=64).collect();
+        let st = par_units(&sls, |&sl, st| {
+            for hl in [16usize, 17, 32, 33, 64, 65, 128] {
+                let r = guarded(AssertUnwindSafe(|| -> Vec<(String, bool)> {
+                    let mut v = vec![];
+                    let cfg = Config::interactive().with_opslimit(1).with_memlimit(8192).with_salt_length(sl).with_hash_length(hl);
+                    let ph: PwHash<Vec<u8>, Vec<u8>> = PwHash::hash_with_salt(&b"pw".to_vec(), kval(seed, 3, sl), cfg.clone()).unwrap();
+                    for (c, rt) in [("json", json_rt(&ph)), ("bincode", bin_rt(&ph))] {
+                        v.push((format!("PwHash/{}", c), rt.as_ref().map(|x| x.to_string() == ph.to_string() && x.clone().into_parts().0 == ph.clone().into_parts().0 && x.verify(&b"pw".to_vec()).is_ok() && x.verify(&b"pW".to_vec()).is_err()).unwrap_or(false)));
+                    }
+                    for (c, rt) in [("json", json_rt(&cfg)), ("bincode", bin_rt(&cfg))] {
+                        v.push((format!("Config/{}", c), rt.as_ref().map(|x| format!("{:?}", x) == format!("{:?}", cfg)).unwrap_or(false)));
+                    }
+                    let (h, sa, c2) = ph.clone().into_parts();
+                    let fp = PwHash::from_parts(h, sa, c2);
+                    v.push(("PwHash/parts".into(), fp.to_string() == ph.to_string() && fp.verify(&b"pw".to_vec()).is_ok()));
+                    v
+                }));
+                match r {
+                    Err(p) => {
+                        st.eval(&("pwhash-obj", sl, hl), true, "panic");
+                        fail(st, "pwhash-objects", "panic", format!("salt length {} hash length {}: {}", sl, hl, p));
+                    }
+                    Ok(v) => {
+                        for (name, ok) in v {
+                            st.eval(&(&name, sl, hl), true, if ok { "roundtrip-ok" } else { "roundtrip-bad" });
+                            if !ok {
+                                fail(st, &name, "roundtrip", format!("{} with salt length {} and hash length {} does not round-trip / verify", name, sl, hl));
+                            }
+                        }
+                    }
+                }
+            }
+        });
+        ctx.absorb("pwhash-objects", st);
+        let mut st = Stats::new();
+        for (name, cfg) in [("interactive", Config::interactive()), ("default", Config::default()), ("moderate", Config::moderate()), ("sensitive", Config::sensitive())] {
+            for (c, rt) in [("json", json_rt(&cfg)), ("bincode", bin_rt(&cfg))] {
+                let ok = rt.as_ref().map(|x| format!("{:?}", x) == format!("{:?}", cfg)).unwrap_or(false);
+                st.eval(&("config-preset", name, c), true, if ok { "roundtrip-ok" } else { "roundtrip-bad" });
+                if !ok {
+                    fail(&mut st, &format!("Config::{}/{}", name, c), "roundtrip", format!("Config::{}() does not round-trip through {}", name, c));
+                }
+            }
+        }
+        ctx.absorb("config-presets", st);
+    }
     // the zero-initialised constructors every decoder and generator starts from: a
     // fixed-length container has exactly N zero bytes, a resizable one starts empty
     {
